@@ -111,6 +111,20 @@ fn eq_mod_const(a: &Type, b: &Type) -> bool {
     strip_const(a) == strip_const(b)
 }
 
+/// The const flag as stored in the type (read by pattern, not through `Type::is_const`).
+fn stored_const(t: &Type) -> Option<bool> {
+    use Type::*;
+    match t {
+        Bit(c) | Int(_, c) | UInt(_, c) | Float(_, c) | Angle(_, c) | Complex(_, c) | Bool(c) | Duration(c) | Stretch(c) | BitArray(_, c) => Some(matches!(c, IsConst::True)),
+        _ => None,
+    }
+}
+
+/// const-ness with the stored flag where there is one
+fn konst(t: &Type) -> bool {
+    stored_const(t).unwrap_or_else(|| t.is_const())
+}
+
 /// Does the pair have an upper bound in the order? (the tower has a top kind, complex, and a top
 /// width, none; so any two tower types have one.)
 fn has_bound(a: &Type, b: &Type) -> bool {
@@ -159,6 +173,12 @@ pub fn check_pair(a: &Type, b: &Type, out: &mut Vec<Failure>) {
         if !eq_mod_const(&p, &q) {
             out.push(fail(&format!("{fname}:asymmetric"), a, b, format!("{p:?} vs {q:?}"), true));
         }
+        // the accessor agrees with the stored flag
+        if let Some(f) = stored_const(a) {
+            if a.is_const() != f && fname == "promote_types" {
+                out.push(fail("is_const:disagrees-with-the-stored-flag", a, a, format!("{}", a.is_const()), true));
+            }
+        }
         // reflexive
         if a == b && fname == "promote_types" && &p != a {
             out.push(fail("promote_types:not-reflexive", a, b, format!("{p:?}"), true));
@@ -169,7 +189,7 @@ pub fn check_pair(a: &Type, b: &Type, out: &mut Vec<Failure>) {
                 if !(le(a, &p) && le(b, &p)) {
                     out.push(fail(&format!("{fname}:not-upper-bound"), a, b, format!("{p:?}"), true));
                 }
-                if p.is_const() && !(a.is_const() && b.is_const()) {
+                if konst(&p) && !(konst(a) && konst(b)) {
                     out.push(fail(&format!("{fname}:const-result-from-non-const-operand"), a, b, format!("{p:?}"), true));
                 }
             } else {
@@ -178,7 +198,7 @@ pub fn check_pair(a: &Type, b: &Type, out: &mut Vec<Failure>) {
                 if !(eq_mod_const(&p, a) && eq_mod_const(&p, b)) {
                     out.push(fail(&format!("{fname}:common-type-for-unordered-pair"), a, b, format!("{p:?}"), true));
                 }
-                if p.is_const() && !(a.is_const() && b.is_const()) && eq_mod_const(a, b) {
+                if konst(&p) && !(konst(a) && konst(b)) && eq_mod_const(a, b) {
                     out.push(fail(&format!("{fname}:const-result-from-non-const-operand"), a, b, format!("{p:?}"), true));
                 }
             }
